@@ -613,6 +613,7 @@ func checkC13(c *Ctx, r *Report) {
 	// a command whose retries were given up is a failed command (rule shared by C04, C10, C13)
 	checkRetryFailureReturned(c, r)
 	checkSendSites(c, r)
+	checkSuccessNeedsExchange(c, r)
 }
 
 // checkRetryBoundedByContext: rule shared by C13 (no call outlives its context) and C10
